@@ -3,6 +3,7 @@ package storelib
 import (
 	"context"
 	"fmt"
+	"regexp"
 	"runtime/debug"
 	"strings"
 	"time"
@@ -272,6 +273,15 @@ func (r *Rec) UpdatePlan(id uuid.UUID, reason workflow.FailureReason, st *workfl
 	return err
 }
 
+// UpdatedPlan_ records an UpdatePlan that the caller performed itself (fault injection).
+func (r *Rec) UpdatedPlan_(id uuid.UUID, reason workflow.FailureReason, st *workflow.State, submit time.Time, err error, what, ctor string) error {
+	if r.Dead {
+		return fmt.Errorf("vault abandoned after a hang")
+	}
+	r.push(core.App(ctor, r.Cx.Uid(id), plancoq.Reason(reason), stateTerm(st), plancoq.Time(submit)), what, err, okTerm(err), map[string]any{"id": id.String()})
+	return err
+}
+
 func (r *Rec) UpdateBlock(planID, id uuid.UUID, st *workflow.State) error {
 	if r.Dead {
 		return fmt.Errorf("vault abandoned after a hang")
@@ -352,6 +362,26 @@ func (r *Rec) Items(give, ref *workflow.Plan) int {
 		r.items = append(r.items, core.Pair(r.Cx.Plan(ref), core.List(xs)))
 	})
 	return len(raw)
+}
+
+var blobTy = regexp.MustCompile(`^\(Build_blob \w+ \w+ (\d+)%N `)
+
+// SetBadType records that from now on the registry's plugins declare another response type: attempts
+// whose response has the Go type of sample cannot be decoded any more (sample == nil: as before).
+// The caller has switched the registry (and possibly reopened the store); the reads follow.
+func (r *Rec) SetBadType(sample any, what string) {
+	if r.Dead {
+		return
+	}
+	ty := "0"
+	if sample != nil {
+		m := blobTy.FindStringSubmatch(r.Cx.Blob(sample))
+		if m == nil {
+			panic("cannot find the type index of " + fmt.Sprintf("%T", sample))
+		}
+		ty = m[1]
+	}
+	r.push(core.App("CSetBadType", ty+"%N"), what, nil, "None", map[string]any{"type": fmt.Sprintf("%T", sample)})
 }
 
 // CaseTerm is the Coq term of the recorded case.
